@@ -71,7 +71,8 @@ Proof.
 Qed.
 
 Definition good_wk (sender : option N) (tag cek : term) (r : N) (w : recwk) : Prop :=
-  exists kr, wk_kid w = Some kr /\ resolve Fixed kr = RKey r /\ unwrap_one r sender tag w = Some cek.
+  (exists kr, wk_kid w = Some kr /\ resolve Fixed kr = RKey r /\ unwrap_one r sender tag w = Some cek) /\
+  (sender = None \/ alg_1pu w = true).
 
 Lemma unwrap_cek_gen party sender tag cek : forall rcpts ws,
   Forall2 (good_wk sender tag cek) rcpts ws ->
@@ -80,7 +81,7 @@ Lemma unwrap_cek_gen party sender tag cek : forall rcpts ws,
   | None => unwrap_cek Fixed party sender tag ws = Err ERejected
   end.
 Proof.
-  intros rcpts ws HF. induction HF as [|r w rs ws' [kr [Hk [Hr Hu]]] HF IH]; [reflexivity|].
+  intros rcpts ws HF. induction HF as [|r w rs ws' [[kr [Hk [Hr Hu]]] _] HF IH]; [reflexivity|].
   cbn [first_owned unwrap_cek]. rewrite Hk, Hr. destruct (mem r party); [rewrite Hu; reflexivity|exact IH].
 Qed.
 
@@ -89,6 +90,9 @@ Proof. unfold c_dec, c_enc. rewrite term_eqb_refl. cbn [adec]. rewrite !term_eqb
 
 Lemma unwrap_wrap k c : unwrap k (Wrap k c) = Some c.
 Proof. cbn [unwrap]. rewrite term_eqb_refl. reflexivity. Qed.
+
+Lemma bad_b64_kref x : bad_b64 (Some (t_kref x)) = false.
+Proof. destruct x; reflexivity. Qed.
 
 Lemma pu_alg_1pu kt e a : pu_alg kt e = Some a -> is_1pu a = true.
 Proof. destruct kt, e; cbn; intros H; inversion H; reflexivity. Qed.
@@ -115,6 +119,14 @@ Proof.
     cbn [build_all]. rewrite Hb. cbn [bind]. rewrite IH1. reflexivity.
 Qed.
 
+Lemma needs_1pu_false sender tag cek : forall rcpts ws,
+  Forall2 (good_wk sender tag cek) rcpts ws -> sender_needs_1pu Fixed sender ws = false.
+Proof.
+  intros rcpts ws HF. unfold sender_needs_1pu. destruct sender as [s|]; [|reflexivity].
+  apply negb_false_iff. induction HF as [|r w rs ws' [_ [H|H]] HF IH]; [reflexivity|discriminate|].
+  cbn [forallb]. rewrite H, IH. reflexivity.
+Qed.
+
 Lemma jwe_unpack_gen auth party j prot sender cek m rcpts :
   j_prot j = Some prot ->
   p_enc prot <> None ->
@@ -138,7 +150,7 @@ Proof.
   - destruct Hfo as [kr Hfo]. rewrite Hfo. cbn [bind].
     unfold decrypt_jwe. destruct (p_enc prot); [|congruence].
     destruct Hs as [[Hs ->]|[s [ks [Hs [Hr ->]]]]]; rewrite Hs; [|rewrite Hr]; cbn [bind];
-      rewrite Hb; cbn [bind]; rewrite Hu; cbn [bind]; rewrite Hd; reflexivity.
+      rewrite Hb; cbn [bind]; rewrite (needs_1pu_false _ _ _ _ _ Hg); rewrite Hu; cbn [bind]; rewrite Hd; reflexivity.
   - rewrite Hfo. reflexivity.
 Qed.
 
@@ -172,9 +184,12 @@ Proof.
       unfold sel_kid. destruct (match rcpts with [_] => true | _ => false end) eqn:Hsg.
       * unfold prot. cbn [p_kid]. rewrite (Hsingle eq_refl). reflexivity.
       * reflexivity.
-    + unfold build_recwk. cbn [p_alg prot]. rewrite Ha. rewrite orb_true_r. cbn [p_epk is_pub negb andb].
+    + unfold build_recwk. cbn [p_alg prot]. rewrite Ha. rewrite orb_true_r.
+      cbn [p_epk is_pub negb andb p_apu p_apv orb prot].
+      rewrite bad_b64_kref. cbn [bad_b64 apv_1pu orb].
       destruct (match rcpts with [_] => true | _ => false end) eqn:Hsg; cbn [negb andb r_hdr r_ek];
-        eexists; (split; [reflexivity|]); exists (kref_for st r); cbn [wk_kid rh_kid p_kid].
+        eexists; (split; [reflexivity|]);
+        (split; [|right; unfold alg_1pu; cbn [wk_alg p_alg]; exact Ha]); exists (kref_for st r); cbn [wk_kid rh_kid p_kid].
       * unfold prot at 1. cbn [p_kid]. rewrite (Hsingle eq_refl) at 1. split; [reflexivity|]. split; [apply resolve_kref_for|].
         unfold unwrap_one. cbn [wk_alg wk_epk wk_apu wk_apv wk_ek p_alg p_apu p_apv odflt]. rewrite Ha.
         rewrite (dh_comm r (rn_eph rn)), (dh_comm r sender). apply unwrap_wrap.
@@ -197,7 +212,7 @@ Proof.
   split.
   - exists (kref_for st r). split; [reflexivity|apply resolve_kref_for].
   - unfold build_recwk. rewrite Hpa. cbn [orb r_hdr rh_epk is_pub negb r_ek rh_kid rh_alg rh_apu rh_apv].
-    eexists. split; [reflexivity|]. exists (kref_for st r). cbn [wk_kid]. split; [reflexivity|].
+    eexists. split; [reflexivity|]. split; [|left; reflexivity]. exists (kref_for st r). cbn [wk_kid]. split; [reflexivity|].
     split; [apply resolve_kref_for|].
     unfold unwrap_one. cbn [wk_alg wk_epk wk_apu wk_apv wk_ek odflt]. rewrite Hpu, Hes.
     rewrite (dh_comm r (rn_eph rn + i)). apply unwrap_wrap.
@@ -226,8 +241,8 @@ Proof.
     + unfold j, pack_jwe_anon. cbn [j_recs j_tag single_rec]. constructor; [|constructor].
       fold a. fold e. fold prot. split.
       * exists (kref_for (style_of c) r). split; [reflexivity|apply resolve_kref_for].
-      * unfold build_recwk. cbn [orb p_epk prot is_pub negb p_alg]. rewrite Hpu. cbn [andb r_ek].
-        eexists. split; [reflexivity|]. exists (kref_for (style_of c) r). cbn [wk_kid p_kid]. split; [reflexivity|].
+      * unfold build_recwk. cbn [orb p_epk prot is_pub negb p_alg p_apu p_apv bad_b64 apu_es]. rewrite Hpu. cbn [andb r_ek].
+        eexists. split; [reflexivity|]. split; [|left; reflexivity]. exists (kref_for (style_of c) r). cbn [wk_kid p_kid]. split; [reflexivity|].
         split; [apply resolve_kref_for|].
         unfold unwrap_one. cbn [wk_alg wk_epk wk_apu wk_apv wk_ek odflt p_apu p_apv]. rewrite Hpu, Hes.
         rewrite (dh_comm r e). apply unwrap_wrap.
